@@ -415,8 +415,19 @@ func TestC17Measured(t *testing.T) {
 		var bodyNs int64
 		stats := &progress.Stats{}
 		m := runkit.NewMetrics(nil, true)
+		// the worker's previous iteration (of the other outcome, so that the figures stay apart) left
+		// a slow cleanup: none of that time belongs to the iteration measured next
+		prev := false
+		prevCleanup := time.Duration(r.Range(1000, 3000)) * time.Microsecond
 		sc := &scenarios.Scenario{Name: "c17", ScenarioFn: func(*f1testing.T) f1testing.RunFn {
 			return func(t *f1testing.T) {
+				if prev {
+					t.Cleanup(func() { time.Sleep(prevCleanup) })
+					if how < 2 {
+						t.Fail()
+					}
+					return
+				}
 				t0 := time.Now()
 				for time.Since(t0) < spend {
 					runtime.Gosched()
@@ -448,6 +459,13 @@ func TestC17Measured(t *testing.T) {
 			as := workers.NewActiveScenario(sc, m, stats, log.NewDiscardLogger(), logrus.New())
 			as.Setup()
 			st := as.VerifNewIterationState()
+			if i%3 == 1 {
+				prev = true
+				workers.VerifStateT(st).Reset("0")
+				as.Run(st)
+				prev = false
+				o.Count("worker", "previous iteration left a slow cleanup")
+			}
 			workers.VerifStateT(st).Reset("1")
 			t0 := time.Now()
 			crashed, pv := kit.Guard(func() { as.Run(st) })
